@@ -114,6 +114,7 @@ func runC02(c *Ctx) {
 	runLoopCompleteness(c, "C02-R3", []string{"rollback", "removeDoubleSpends", "removeConflict", "deleteUnminedTx", "updateMinedBalance"})
 	checkLoopCarriedStructs(c, "C02-R3", []string{"rollback", "updateMinedBalance"})
 	checkRollbackWalk(c, "C02-R3")
+	checkNoBulkOverwriteAfterElementWrite(c, "C02-R3")
 	checkElementIndexFromOwnLoop(c, "C02-R3", []string{"rollback", "updateMinedBalance", "insertMinedTx", "addCredit"})
 
 	// R4: disconnectBlock reaches Rollback
